@@ -1201,6 +1201,17 @@ def u_callgraph(ip: Interp, th: PoolTheory):
         # a site the declaration does not know is not a violation by itself (it may be a correct new helper): the
         # thread model no longer matches the code, so the deductive check is *undecided* until the spec is extended
         extra = sorted(set(found) - set(allowed))
+
+        def helper_of_allowed(q, depth=0):
+            # a private helper without a contract of its own that is referenced only from the declared functions is executed
+            # as part of them (the symbolic executor inlines it): not a deviation from the declared model
+            name_ = q.split(".")[-1]
+            if depth > 3 or not name_.startswith("_") or name_.startswith("__") or q in ip.contracts:
+                return False
+            callers = [c for c in pool_fns(repo.references(name_)) if c != q]
+            return bool(callers) and all(c in allowed or helper_of_allowed(c, depth + 1) for c in callers)
+
+        extra = [q for q in extra if not helper_of_allowed(q)]
         if extra:
             problems.append(f"{name}: also {extra}")
         else:
